@@ -39,6 +39,20 @@ def window_suspects(b, rules):
     return out
 
 
+def started_after_cancel(out, hdr):
+    """create events of the build `hdr` that follow the cancel-sent marker."""
+    inb, sent, late = False, False, []
+    for l in out:
+        if l.startswith("build "):
+            inb = (l == hdr)
+            sent = False
+        elif inb and "cancel-sent" in l:
+            sent = True
+        elif inb and sent and l.startswith("create "):
+            late.append(l)
+    return late
+
+
 def judge(chk, lines, out, origin, sess=None, tag=None):
     """All oracles over one implementation trace. Returns list of (key, what)."""
     bad = []
@@ -60,8 +74,11 @@ def judge(chk, lines, out, origin, sess=None, tag=None):
         if sent or cancelled:
             cancelled_seen = True
             if val != "EMPTY":
-                # cancellation requested during the build: build() must report failure
-                bad.append(("cancel-not-failure", "cancelBuild() was called during '%s' but build() returned the value %s" % (b["hdr"], val)))
+                # cancelBuild() arrived after the engine's last cancellation test: the build was already finishing.  That is only
+                # acceptable if no new work was started after the call.
+                late = started_after_cancel(out, b["hdr"])
+                if late:
+                    bad.append(("cancel-not-failure", "cancelBuild() was called during '%s', tasks were still created afterwards (%s) and build() returned the value %s" % (b["hdr"], late[:3], val)))
             comp = {}
             for l in b["events"]:
                 t = l.split(" ")
